@@ -97,6 +97,10 @@ class Contract:
         self.havoc(it, a)
         r = self.result(it, a)
         for label, f in self.ensures(it, a, r, old):
+            if f is False:
+                # the call-site model (havoc/result) does not satisfy the contract's own
+                # postcondition: a modelling error, never a silently dropped path
+                raise Unsupported("call-site model of %s violates its postcondition %r" % (self.name, label))
             it.assume(f)
         return r
 
